@@ -4,6 +4,7 @@ import importlib
 _ENGINES = {
     "C03": ("sims.progsim", "ProgSim"),
     "C04": ("sims.histsim", "HistSim"),
+    "C05": ("sims.itersim", "IterSim"),
     "C07": ("sims.modesim", "ModeSim"),
     "C08": ("sims.optsim", "OptSim"),
     "C11": ("sims.framesim", "FrameSim"),
